@@ -350,11 +350,17 @@ def iv(x):
     return x if type(x) is int else BADTYPE
 
 
-def ivs(xs):
-    try:
-        return [len(xs)] + [iv(x) for x in xs]
-    except TypeError:
+def ivs(xs, typ=tuple):
+    """integer sequence; the container type is part of the decoded value (tuple for offsets / replicas / isr / assigned
+    partitions): anything else is reported as a type marker, which no model trace contains"""
+    if type(xs) is not typ:
         return [BADTYPE]
+    return [len(xs)] + [iv(x) for x in xs]
+
+
+def ty(x, name):
+    """[] when x is an instance of exactly the named afkak struct / builtin, else a type marker"""
+    return [] if type(x).__name__ == name else [BADTYPE]
 
 
 def drain(make, item):
@@ -375,15 +381,37 @@ def value(make, show):
         return [CL.exc_code(e)]
 
 
+TSTYPES = []      # Message.timestamp_type of every message decoded by the last drain_messages calls (monitor F-C05-5)
+
+
 def drain_messages(it):
     out, n, outcome = [], 0, 0
     try:
         for om in it:
-            out += [iv(om.offset)] + CL.msg_ints(om.message)
+            out += ty(om, "OffsetAndMessage") + [iv(om.offset)] + ty(om.message, "Message") + CL.msg_ints(om.message)
+            TSTYPES.append((om.message.magic, om.message.attributes, om.message.timestamp_type))
             n += 1
     except Exception as e:  # noqa
         outcome = CL.exc_code(e)
     return [n] + out + [outcome]
+
+
+ORACLE_AUDIT = []   # recorded codec calls of the real code that Python's own gzip module does not confirm
+
+
+def audit_pairs(pairs):
+    """every answer the real afkak.codec gave during a decode (and that is handed to the model as its oracle) is checked
+    against the standard library: gzip_decode(z) must be gzip.decompress(z), gzip_encode(x) must decompress to x"""
+    import gzip as _g
+    for kind, inp, status, out in pairs:
+        try:
+            if kind == 1 and status == 0 and _g.decompress(inp) != out:
+                ORACLE_AUDIT.append({"call": "gzip_decode", "input_hex": inp.hex()[:4000], "input_len": len(inp),
+                                     "afkak_returned_len": len(out), "stdlib_len": len(_g.decompress(inp))})
+            if kind == 2 and status == 0 and _g.decompress(out) != inp:
+                ORACLE_AUDIT.append({"call": "gzip_encode", "input_len": len(inp), "afkak_returned_len": len(out)})
+        except Exception as e:  # noqa  (stdlib refuses what afkak accepted)
+            ORACLE_AUDIT.append({"call": "gzip kind %d" % kind, "input_len": len(inp), "stdlib_error": repr(e)})
 
 
 def impl_decode(op, data, ver=0):
@@ -394,53 +422,57 @@ def impl_decode(op, data, ver=0):
         return value(lambda: K.get_response_correlation_id(data), lambda c: [iv(c)]), None
     if op == 2:
         return value(lambda: K.decode_api_versions_response(data),
-                     lambda v: [iv(v.error_code), len(v.api_versions)] + [iv(x) for a in v.api_versions for x in (a.api_key, a.min_version, a.max_version)]), None
+                     lambda v: ty(v, "ApiVersionResponse") + ty(v.api_versions, "list") + [iv(v.error_code), len(v.api_versions)]
+                     + [y for a in v.api_versions for y in ty(a, "ApiVersion") + [iv(a.api_key), iv(a.min_version), iv(a.max_version)]]), None
     if op == 3:
-        return drain(lambda: K.decode_produce_response(data, ver), lambda x: tb(x.topic) + [iv(x.partition), iv(x.error), iv(x.offset)]), None
+        return drain(lambda: K.decode_produce_response(data, ver), lambda x: ty(x, "ProduceResponse") + tb(x.topic) + [iv(x.partition), iv(x.error), iv(x.offset)]), None
     if op == 4:
         with CL.Recorder() as rec:
             tr = drain(lambda: K.decode_fetch_response(data, ver),
-                       lambda x: tb(x.topic) + [iv(x.partition), iv(x.error), iv(x.highwaterMark)] + drain_messages(x.messages))
+                       lambda x: ty(x, "FetchResponse") + tb(x.topic) + [iv(x.partition), iv(x.error), iv(x.highwaterMark)] + drain_messages(x.messages))
             orc = rec.oracle()
+            audit_pairs(rec.pairs)
         return tr, orc
     if op == 5:
-        return drain(lambda: K.decode_offset_response(data), lambda x: tb(x.topic) + [iv(x.partition), iv(x.error)] + ivs(x.offsets)), None
+        return drain(lambda: K.decode_offset_response(data), lambda x: ty(x, "OffsetResponse") + tb(x.topic) + [iv(x.partition), iv(x.error)] + ivs(x.offsets)), None
     if op == 6:
         def show(bt):
             brokers, topics = bt
-            out = [len(brokers)]
+            out = ty(brokers, "dict") + ty(topics, "dict") + [len(brokers)]
             for k, b in sorted(brokers.items()):
-                out += [iv(k), iv(b.node_id)] + tb(b.host) + [iv(b.port)]
+                out += ty(b, "BrokerMetadata") + [iv(k), iv(b.node_id)] + tb(b.host) + [iv(b.port)]
             out += [len(topics)]
             for k, t in sorted(topics.items(), key=lambda kv: kv[0].encode("utf-8")):
-                out += tb(k) + tb(t.topic) + [iv(t.topic_error_code), len(t.partition_metadata)]
+                out += ty(t, "TopicMetadata") + ty(t.partition_metadata, "dict") + tb(k) + tb(t.topic) + [iv(t.topic_error_code), len(t.partition_metadata)]
                 for pk, p in sorted(t.partition_metadata.items()):
-                    out += [iv(pk), iv(p.partition)] + tb(p.topic) + [iv(p.partition_error_code), iv(p.leader)] + ivs(p.replicas) + ivs(p.isr)
+                    out += ty(p, "PartitionMetadata") + [iv(pk), iv(p.partition)] + tb(p.topic) + [iv(p.partition_error_code), iv(p.leader)] + ivs(p.replicas) + ivs(p.isr)
             return out
         return value(lambda: K.decode_metadata_response(data), show), None
     if op == 7:
-        return value(lambda: K.decode_consumermetadata_response(data), lambda v: [iv(v.error), iv(v.node_id)] + tb(v.host) + [iv(v.port)]), None
+        return value(lambda: K.decode_consumermetadata_response(data), lambda v: ty(v, "ConsumerMetadataResponse") + [iv(v.error), iv(v.node_id)] + tb(v.host) + [iv(v.port)]), None
     if op == 8:
-        return drain(lambda: K.decode_offset_commit_response(data), lambda x: tb(x.topic) + [iv(x.partition), iv(x.error)]), None
+        return drain(lambda: K.decode_offset_commit_response(data), lambda x: ty(x, "OffsetCommitResponse") + tb(x.topic) + [iv(x.partition), iv(x.error)]), None
     if op == 9:
         return drain(lambda: K.decode_offset_fetch_response(data),
-                     lambda x: tb(x.topic) + [iv(x.partition), iv(x.offset)] + ob(x.metadata) + [iv(x.error)]), None
+                     lambda x: ty(x, "OffsetFetchResponse") + tb(x.topic) + [iv(x.partition), iv(x.offset)] + ob(x.metadata) + [iv(x.error)]), None
     if op == 10:
         return value(lambda: K.decode_join_group_protocol_metadata(data),
-                     lambda v: [iv(v.version), len(v.subscriptions)] + sum((tb(s) for s in v.subscriptions), []) + ob(v.user_data)), None
+                     lambda v: ty(v, "_JoinGroupProtocolMetadata") + ty(v.subscriptions, "list") + [iv(v.version), len(v.subscriptions)]
+                     + sum((tb(s) for s in v.subscriptions), []) + ob(v.user_data)), None
     if op == 11:
         return value(lambda: K.decode_join_group_response(data),
-                     lambda v: [iv(v.error), iv(v.generation_id)] + tb(v.group_protocol) + tb(v.leader_id) + tb(v.member_id) + [len(v.members)]
-                     + sum((tb(m.member_id) + ob(m.member_metadata) for m in v.members), [])), None
+                     lambda v: ty(v, "_JoinGroupResponse") + ty(v.members, "list") + [iv(v.error), iv(v.generation_id)] + tb(v.group_protocol)
+                     + tb(v.leader_id) + tb(v.member_id) + [len(v.members)]
+                     + sum((ty(m, "_JoinGroupResponseMember") + tb(m.member_id) + ob(m.member_metadata) for m in v.members), [])), None
     if op == 12:
-        return value(lambda: K.decode_leave_group_response(data), lambda v: [iv(v.error)]), None
+        return value(lambda: K.decode_leave_group_response(data), lambda v: ty(v, "_LeaveGroupResponse") + [iv(v.error)]), None
     if op == 13:
-        return value(lambda: K.decode_heartbeat_response(data), lambda v: [iv(v.error)]), None
+        return value(lambda: K.decode_heartbeat_response(data), lambda v: ty(v, "_HeartbeatResponse") + [iv(v.error)]), None
     if op == 14:
-        return value(lambda: K.decode_sync_group_response(data), lambda v: [iv(v.error)] + ob(v.member_assignment)), None
+        return value(lambda: K.decode_sync_group_response(data), lambda v: ty(v, "_SyncGroupResponse") + [iv(v.error)] + ob(v.member_assignment)), None
     if op == 15:
         return value(lambda: K.decode_sync_group_member_assignment(data),
-                     lambda v: [iv(v.version), len(v.assignments)]
+                     lambda v: ty(v, "_SyncGroupMemberAssignment") + ty(v.assignments, "dict") + [iv(v.version), len(v.assignments)]
                      + sum((tb(t) + ivs(ps) for t, ps in sorted(v.assignments.items(), key=lambda kv: kv[0].encode("utf-8"))), []) + ob(v.user_data)), None
     raise ValueError(op)
 
